@@ -68,6 +68,19 @@ CLAIMED = {
         "from PyYAML's events; keys/mapping at column 0, no tab as separator.",
         "exhaustive small-string enumeration + Hypothesis grammar/mutation + atheris; differential oracle (PyYAML events)",
     ),
+    "C17": (
+        "Every HTML fragment of four classes (plain: all CommonMark HTML-block start conditions; img-only; admonition div; "
+        "mixed) x the four html_image / html_admonition combinations (exhaustive) and Hypothesis documents of such "
+        "fragments with inline HTML in quotes / lists: raw nodes == html token contents of an independent RendererHTML "
+        "parse; every whitelisted <img> attribute x 41 option-syntax-hostile values (exhaustive) and Hypothesis attribute "
+        "sets, block and inline: image nodes and warnings == those of the image directive with double-quoted options; "
+        "Hypothesis <div class=admonition> structures == the admonition directive; every disallowed tag x open / close x "
+        "13 following characters x 3 letter cases (exhaustive) and Hypothesis tag soup in GFM mode: raw text == scanner "
+        "model of the tag filter and html.parser sees none of the nine tags; bounded search.",
+        "GFM mode through create_md_parser(gfm config) with linkify disabled; the equivalent directive uses "
+        "double-quoted option values (C07-verified form).",
+        "exhaustive fragment / attribute-value / tag-spelling enumeration + Hypothesis; differential (token contents, directive spelling) + reference-model (tag-filter scanner) oracles",
+    ),
     "C18": (
         "Hypothesis-generated object tables serialised as v1/v2 inventories (plus line-level mutations), loaded "
         "through every 1- and 2-split chunking of small files and random chunk-size sequences of larger ones; "
